@@ -382,7 +382,17 @@ def probe(a):
             for c in a.case:
                 rc, out, _ = run([os.path.join(hdir, "h"), "-replay", c.replace("\\t", "\t")], timeout=120)
                 obs.append((mutated, c, out.strip().split("\t")[2] if out.count("\t") >= 2 else "rc=%d %s" % (rc, out[-300:])))
-        n = len(a.case)
+            if a.case_file:
+                # cases too long for an argv entry: run them as a corpus (the corpus lines are executed first, in -sync mode every
+                # line is flushed before the next case starts) and read their observations back
+                cl = [l.rstrip("\n") for l in open(a.case_file) if l.strip() and not l.startswith("#")]
+                outf = os.path.join(hdir, "out.txt")
+                rc, out, _ = run([os.path.join(hdir, "h"), "-prop", pid, "-tier", "quick", "-sync", "-corpus", a.case_file, "-out", outf], timeout=600)
+                got = [l.rstrip("\n").split("\t") for l in open(outf)][:len(cl)] if os.path.exists(outf) else []
+                for i, c in enumerate(cl):
+                    short = c if len(c) < 200 else c[:80] + "..." + c[-60:]
+                    obs.append((mutated, short, got[i][2] if i < len(got) and len(got[i]) > 2 else "no observation: harness exit %d %s" % (rc, " | ".join(x for x in out.splitlines() if not x.startswith(("PENDING", "STAT", "EXHAUSTIVE", "CASES")))[-300:])))
+        n = len(obs) // 2
         for i in range(n):
             o, m = obs[i][2], obs[n + i][2]
             print("%s\n  original: %s\n  mutant  : %s\n  %s" % (obs[i][1], o[:400], m[:400], "DIFFERENT" if o != m else "same"))
@@ -530,6 +540,7 @@ def main():
     ap.add_argument("--report", action="store_true")
     ap.add_argument("--probe", help="mutant selector 'file:line:desc-substring'")
     ap.add_argument("--case", action="append", default=[], help="op<TAB>args (literal \\t accepted)")
+    ap.add_argument("--case-file", help="file of op<TAB>args lines (for cases too long for the command line)")
     ap.add_argument("--tags", default="verif")
     ap.add_argument("--triage", nargs=3, metavar=("SEL", "CLASS", "WHY"))
     ap.add_argument("--retest", nargs="*", help="'all' or mutant selectors")
